@@ -253,7 +253,7 @@ func checkC05(c *km.Ctx) {
 	// one request, checkAuth and the upgrade must pick the same one
 	if ca := c.MustFunc("R-C05-3", "cmd/keymasterd", "(*RuntimeState).checkAuth"); ca != nil {
 		a, b := authCookieSelection(c, ca), authCookieSelection(c, upd)
-		r.Add("R-C05-3", km.FuncName(upd), "the raised cookie is the authenticating cookie", c.P.Pos(upd.Pos()), "checkAuth and updateAuthCookieAuthlevel select the session cookie the same way (both the last, or both the first, of that name)", sprintf("checkAuth=%s upgrade=%s", a, b), a == b && (a == "last" || a == "first"))
+		r.Add("R-C05-3", km.FuncName(upd), "the raised cookie is the authenticating cookie", c.P.Pos(upd.Pos()), "checkAuth and updateAuthCookieAuthlevel select the session cookie the same way (both the last, both the first of that name, or both through one helper)", sprintf("checkAuth=%s upgrade=%s", a, b), a == b && (a == "last" || a == "first" || (strings.HasPrefix(a, "via ") && !strings.Contains(a, " and "))))
 	}
 
 	checkOneTime(c, s, upd, isAuthUser)
@@ -1079,18 +1079,47 @@ func totpStepIsFloor(v ssa.Value, depth int) (bool, string) {
 	return false, km.ValStr(v)
 }
 
-// authCookieSelection: how fn (or a helper new to the tree that it calls) picks the session cookie out of the
-// request: "first" (Request.Cookie, or a loop over Request.Cookies() that stops at the first match), "last" (a
-// loop over Request.Cookies() that runs to the end, each match replacing the previous), "none", or a description
-// when both occur.
+// authCookieSelection: how fn picks the session cookie out of the request: "first" (Request.Cookie, element 0 of
+// Request.CookiesNamed, or a loop over Request.Cookies() that stops at the first match), "last" (a loop over
+// Request.Cookies() that runs to the end, each match replacing the previous; the last element of CookiesNamed),
+// "via <helper>" when the choice is made by a module function that takes the request and returns a cookie and whose
+// own choice cannot be classified (two callers of one such helper agree by construction), "none", or the list when
+// several occur.
 func authCookieSelection(c *km.Ctx, fn *ssa.Function) string {
 	classes := map[string]bool{}
-	for _, f := range callsWithNewHelpersFuncs(c, fn, 2) {
+	var scan func(f *ssa.Function, depth int) map[string]bool
+	scan = func(f *ssa.Function, depth int) map[string]bool {
+		out := map[string]bool{}
 		for _, ci := range km.CallsIn(f) {
-			switch km.CalleeFull(ci.Common()) {
+			name := km.CalleeFull(ci.Common())
+			switch name {
 			case "(*net/http.Request).Cookie":
 				if n, ok := km.ConstString(ci.Common().Args[1]); ok && n == "auth_cookie" {
-					classes["first"] = true
+					out["first"] = true
+				}
+			case "(*net/http.Request).CookiesNamed":
+				cl, isCall := ci.(*ssa.Call)
+				if n, ok := km.ConstString(ci.Common().Args[1]); !ok || n != "auth_cookie" || !isCall {
+					continue
+				}
+				for _, ref := range *cl.Referrers() {
+					ia, isIA := ref.(*ssa.IndexAddr)
+					if !isIA {
+						continue
+					}
+					if k, isK := km.ConstInt(ia.Index); isK && k == 0 {
+						out["first"] = true
+					} else if b, isB := km.Unwrap(ia.Index).(*ssa.BinOp); isB && b.Op == token.SUB {
+						one, isOne := km.ConstInt(b.Y)
+						lc, isL := km.Unwrap(b.X).(*ssa.Call)
+						if isOne && one == 1 && isL && km.CalleeFull(lc.Common()) == "builtin:len" && km.Unwrap(lc.Common().Args[0]) == ssa.Value(cl) {
+							out["last"] = true
+						} else {
+							out["element "+km.ValStr(ia.Index)] = true
+						}
+					} else {
+						out["element "+km.ValStr(ia.Index)] = true
+					}
 				}
 			case "(*net/http.Request).Cookies":
 				cl, isCall := ci.(*ssa.Call)
@@ -1134,21 +1163,49 @@ func authCookieSelection(c *km.Ctx, fn *ssa.Function) string {
 						}
 					}
 					if early {
-						classes["first"] = true
+						out["first"] = true
 					} else {
-						classes["last"] = true
+						out["last"] = true
 					}
+				}
+			default:
+				// a module function that is handed the request and gives back a cookie
+				g := km.StaticCallee(ci.Common())
+				if g == nil || len(g.Blocks) == 0 || !c.InModule(g) || depth > 2 {
+					continue
+				}
+				res := g.Signature.Results()
+				if res.Len() == 0 || res.At(0).Type().String() != "*net/http.Cookie" {
+					continue
+				}
+				takesReq := false
+				for _, a := range ci.Common().Args {
+					if a.Type().String() == "*net/http.Request" {
+						takesReq = true
+					}
+				}
+				if !takesReq {
+					continue
+				}
+				inner := scan(g, depth+1)
+				if len(inner) == 0 {
+					out["via "+km.FuncName(g)] = true
+				}
+				for k := range inner {
+					out[k] = true
 				}
 			}
 		}
+		return out
 	}
-	switch {
-	case len(classes) == 0:
+	classes = scan(fn, 0)
+	if len(classes) == 0 {
 		return "none"
-	case len(classes) == 1:
-		for k := range classes {
-			return k
-		}
 	}
-	return "first and last"
+	var l []string
+	for k := range classes {
+		l = append(l, k)
+	}
+	sort.Strings(l)
+	return strings.Join(l, " and ")
 }
